@@ -2,6 +2,7 @@
 
 use vh::report::*;
 
+mod c02;
 mod c05;
 mod c09;
 mod c20;
@@ -15,6 +16,8 @@ fn main() {
     }
     let mut rep = Report::new(&cli, "model_checking");
     let (level, (cov, viol)) = match cli.prop.as_str() {
+        "C02" => ("model_checking", c02::run(&cli, "C02")),
+        "C14" => ("model_checking", c02::run(&cli, "C14")),
         "C05" => ("model_checking", c05::run(&cli)),
         "C09" => ("model_checking", c09::run(&cli)),
         "C20" => ("model_checking", c20::run(&cli)),
